@@ -108,14 +108,39 @@ Definition keyed_vinfo (l : list VInfoP) : list (str * VInfoP) := map (fun vi =>
    order fixed by the graph itself (initializers, then node outputs; the same in p and q) instead of
    being sorted.  For every name in `order`: all informative entries with that name (duplicates stay
    visible); when there is none and the name is an initializer, the entry the serializer adds for it. *)
+(* the leaf of a nested type carries a shape *)
+Fixpoint has_leaf_shape (t : TypeP) : bool :=
+  match t with
+  | TTensor _ (Some _) _ | TSparse _ (Some _) _ => true
+  | TSeq (Some t') _ | TOpt (Some t') _ => has_leaf_shape t'
+  | _ => false
+  end.
+Fixpoint set_leaf_shape (t : TypeP) (sh : list Dim) : TypeP :=
+  match t with
+  | TTensor e _ den => TTensor e (Some sh) den
+  | TSparse e _ den => TSparse e (Some sh) den
+  | TSeq (Some t') den => TSeq (Some (set_leaf_shape t' sh)) den
+  | TOpt (Some t') den => TOpt (Some (set_leaf_shape t' sh)) den
+  | _ => t
+  end.
+Definition tensor_dims (t : TensorP) : list Dim := map (fun d => mkDim (DVal d) None) (t_dims t).
+
+(* "value-info is added for initializers" also completes an existing entry of an initializer: a missing
+   type is the tensor's element type, a missing shape is the tensor's dims (normalised entry in, out) *)
+Definition complete_vinfo (t : TensorP) (vi : VInfoP) : VInfoP :=
+  let ty := match vi_type vi with
+            | TUnset _ => TTensor (Some (dflt 0 (t_dtype t))) None None
+            | x => x
+            end in
+  mkVInfoP (vi_name vi) (if has_leaf_shape ty then ty else set_leaf_shape ty (tensor_dims t)) (vi_doc vi) (vi_meta vi).
+
 Definition norm_vinfos (order : list str) (inits : list TensorP) (l : list VInfoP) : list VInfoP :=
   let inf := filter has_info (map norm_vinfo l) in
-  concat (map (fun k => match filter (fun vi => str_eqb (vname vi) k) inf with
-                        | [] => match lookup k (map (fun t => (tname t, t)) inits) with
-                                | Some t => [default_vinfo t]
-                                | None => []
-                                end
-                        | es => es
+  concat (map (fun k => match filter (fun vi => str_eqb (vname vi) k) inf, lookup k (map (fun t => (tname t, t)) inits) with
+                        | [], Some t => [default_vinfo t]
+                        | [], None => []
+                        | es, Some t => map (complete_vinfo t) es
+                        | es, None => es
                         end) order).
 
 Definition norm_quants (order : list str) (l : list QuantP) : list QuantP :=
